@@ -438,6 +438,13 @@ def _aggregates(P, R):
             for (bb, s) in A.returned_syms(cl):
                 if fmt_sym(strip(s), maxdepth=5).startswith("streaming::event::StreamEvent::get_numeric(") and "field" in fmt_sym(s, maxdepth=6):
                     fm = True
+        # an aggregate is a function of the multiset of values: it may not look at one distinguished element (front / back /
+        # get(i) / [i]) - `self.events.front()?.get_numeric(f)?` as a seed makes the answer None whenever that one event lacks
+        # the field, although others carry it
+        positional = [c for (c, s_) in A.calls_with_receiver_field(fn, "events", TW)
+                      if c.name.rsplit("::", 1)[-1] in ("front", "back", "get", "first", "last", "front_mut", "back_mut", "index", "pop_front", "pop_back", "nth")]
+        if positional:
+            R.violate("e", "aggregate-positional:%s" % name, "TimeWindow::%s reads one particular event of the window (%s): the result then depends on which event sits there, not only on the window's values (e.g. None although other events carry the field)" % (name, positional[0].name.rsplit("::", 1)[-1]), fn, positional[0].line)
         if src_ok and fm:
             R.hold("e", "%s folds get_numeric(field) over self.events" % name, fn=fn)
         else:
